@@ -79,7 +79,8 @@ Proof. vm_compute. repeat split; congruence. Qed.
 
 (* ---------------- settings, datagrams, QPACK integers ---------------- *)
 From WT.Model Require Import Wire Qpack.
-From WT.Proofs Require Import WireP QpackP.
+From WT.Proofs Require Import WireP QpackP HuffmanP QpackRT.
+From Coq Require Import Permutation.
 
 (* SETTINGS: for EVERY order in which the map is iterated (any list l of
    distinct, non-reserved ids), decoding the generated payload gives back
@@ -105,6 +106,25 @@ Theorem C14_qpack_integer_roundtrip :
   forall n fl v tail, In n [1; 2; 3; 4; 5; 6; 7; 8] -> fl < 2 ^ (8 - n) -> v < two64 ->
     dec_int n (enc_int n fl v ++ tail) = Val (fl, v, tail).
 Proof. exact dec_enc_int. Qed.
+
+(* QPACK strings (Huffman when shorter, raw otherwise), for the two prefix widths in use and any flags *)
+Theorem C14_huffman_roundtrip : forall s, bytes_ok s = true -> hdecode (hencode s) = Some s.
+Proof. exact huffman_roundtrip. Qed.
+Theorem C14_qpack_string_roundtrip :
+  forall n fl s tail, In n [1; 2; 3; 4; 5; 6; 7; 8] -> fl * 2 + 1 < 2 ^ (8 - n) -> str_ok s ->
+    dec_str n (enc_str n fl s ++ tail) = Val (s, tail).
+Proof. exact dec_enc_str. Qed.
+(* whole field sections, any number of fields in any order (later duplicates overwrite, as HashMap::insert) *)
+Theorem C14_field_section_roundtrip :
+  forall l, fields_okb l = true -> qpack_decode (qpack_encode l) = Val (fold_left ins l []).
+Proof. exact qpack_roundtrip_b. Qed.
+(* header maps through HEADERS frames *)
+Theorem C14_header_map_roundtrip :
+  forall m, keys_distinct m = true -> fields_okb m = true ->
+    headers_with_frame (fpayload (headers_generate_frame m)) = Val (sorted_headers m)
+    /\ Permutation (sorted_headers m) m
+    /\ forall k, hget k (sorted_headers m) = hget k m.
+Proof. exact headers_roundtrip_b. Qed.
 
 (* static-table references produced by the encoder denote the field they replace *)
 Theorem C14_static_table_sound :
